@@ -299,8 +299,10 @@ class State(object):
 class Policy(object):
     """what to inline; rules subclass or pass callables"""
 
-    def __init__(self, inline=None, max_depth=3, try_forks=True, assume_asserts=True):
+    def __init__(self, inline=None, max_depth=3, try_forks=True, assume_asserts=True, split_ifexp=False):
         self._inline = inline
+        # `x = a if c else b` / `return a if c else b` are executed as the equivalent if/else statement (paths fork)
+        self.split_ifexp = split_ifexp
         self.max_depth = max_depth
         self.try_forks = try_forks
         self.assume_asserts = assume_asserts
@@ -422,9 +424,35 @@ class Interp(object):
         self.ev(v, st, fctx)
         return [st]
 
+    def _split_value(self, node, value):
+        """statement `node` whose value is a conditional expression -> (test, stmt-if-true, stmt-if-false), or None.
+        Recognised: `a if c else b`; `(x or y or ...)[k]` (the or-chain selects the container that is subscripted)"""
+        import copy
+        if isinstance(value, ast.IfExp):
+            a, b = copy.copy(node), copy.copy(node)
+            a.value, b.value = value.body, value.orelse
+            return value.test, a, b
+        if isinstance(value, ast.Subscript) and isinstance(value.value, ast.BoolOp) and isinstance(value.value.op, ast.Or) \
+                and len(value.value.values) >= 2:
+            vals = value.value.values
+            first = vals[0]
+            rest = vals[1] if len(vals) == 2 else ast.copy_location(ast.BoolOp(op=ast.Or(), values=vals[1:]), value.value)
+            a, b = copy.copy(node), copy.copy(node)
+            a.value = ast.copy_location(ast.Subscript(value=first, slice=value.slice, ctx=value.ctx), value)
+            b.value = ast.copy_location(ast.Subscript(value=rest, slice=value.slice, ctx=value.ctx), value)
+            return first, a, b
+        return None
+
     def x_Return(self, node, st, fctx):
         if node.value is None:
             return [self._ret(st, NONE, node)]
+        sp = self._split_value(node, node.value) if self.policy.split_ifexp is True else None
+        if sp is not None:
+            test, a, b = sp
+            out = []
+            for s, t in self.cond(test, st, fctx):
+                out.extend(self.x_Return(a if t else b, s, fctx))
+            return out
         if isinstance(node.value, ast.Call):
             out = []
             for s, t in self.call_stmt(node.value, st, fctx):
@@ -485,6 +513,12 @@ class Interp(object):
 
     def x_Assign(self, node, st, fctx):
         out = []
+        sp = self._split_value(node, node.value) if self.policy.split_ifexp else None
+        if sp is not None:
+            test, a, b = sp
+            for s, t in self.cond(test, st, fctx):
+                out.extend(self.x_Assign(a if t else b, s, fctx))
+            return out
         if isinstance(node.value, ast.Call):
             pairs = self.call_stmt(node.value, st, fctx)
         else:
@@ -1132,6 +1166,12 @@ class Interp(object):
         key = self.ev(node.slice, st, fctx)
         if base[0] == 'T' and key[0] == 'K' and isinstance(key[1], int) and -len(base[1]) <= key[1] < len(base[1]):
             return base[1][key[1]]
+        if isinstance(node.value, (ast.List, ast.Tuple)) and base[0] == 'L' and key[0] == 'K' and isinstance(key[1], int):
+            # subscript of a list display written in place: `[None][0]`
+            init = self.obj_init.get(base)
+            if init is not None and init[0] == 'T' and -len(init[1]) <= key[1] < len(init[1]) and \
+                    not any(x[0] == 'STAR' for x in init[1]):
+                return init[1][key[1]]
         return ('S', base, key)
 
     def e_Tuple(self, node, st, fctx):
